@@ -99,14 +99,14 @@ PROPS = {
         'assumptions': ['the interpreter loop performs exactly stack check, dynamic gas, execute, pc++ for a table entry without memorySize (inherited, identical to upstream: generated identity table)'],
     },
     'C20': {
-        'modules': ['Artela.Props.C20'],
-        'runs': [{'layer': 'journal'}],
-        'trusted_base': TB_M1 + TB_M2 + ['work is counted as 32 units per StateDB read + 1 per byte copied/allocated; the search uses the fixed multiple K=16 (go/layer_journal.go workK)'],
+        'modules': ['Artela.Props.C20', 'Artela.Proofs.GenFacts'],
+        'runs': [{'layer': 'journal'}, {'layer': 'precompile'}, {'layer': 'cancun'}],
+        'trusted_base': TB_M1 + TB_M2 + TB_GEN + ['work is counted as 32 units per StateDB read + 1 per byte copied/allocated; the search uses the fixed multiple K=16 (go/layer_journal.go workK)'],
         'assumptions': ['standard instructions and precompiles 1-9: bounded by upstream gas schedule (identity-checked, not modelled)'],
         'partial': 'c20_full is FALSE for the current code (c20_witness_reference_unbounded); proved: c20_partial, c20_value_journal, c20_value_key_journals, c20_key_journal_partial, c20_reference_journal_partial. Known findings D5 (VRJNAL) and D7 (memory-keyed registrations).',
     },
     'C03': {
-        'modules': ['Artela.Props.C03', 'Artela.Props.C14', 'Artela.Props.C15'],
+        'modules': ['Artela.Props.C03', 'Artela.Props.C14', 'Artela.Props.C15', 'Artela.Props.C07Frame', 'Artela.Proofs.GenFacts'],
         'runs': [{'layer': 'journal'}, {'layer': 'precompile'}, {'layer': 'cancun'}, {'layer': 'frame'}],
         'trusted_base': TB_M1 + TB_M2 + TB_M3 + TB_M6,
         'assumptions': ['inherited instructions are panic-free on an initialised host (identity-checked against go-ethereum v1.12.0, not modelled)',
